@@ -19,7 +19,7 @@ from typing import Dict, List, Optional, Set, Tuple
 from ..cfg import analysis, decompose, N, E
 from ..evalfn import Evaluator
 from ..fold import Folder, Sym, flatten_keys
-from ..lib import prov
+from ..lib import opt_attr, prov
 from ..model import AnalysisError, call_attr, dotted, kwarg, unparse, walk_shallow, norm_stmt, names_in
 
 CONST = "utype.specs.json_schema.constant"
@@ -257,8 +257,13 @@ def r13c(run):
         run.check("R13c", g, "every declared field is considered for the schema", False, construct="field loop domain",
                   message=f"generate_for_dataclass iterates `{unparse(loops[0].ast)}` instead of parser.fields.items()",
                   necessity="fields missing from the iteration are missing from properties / required")
-    key = unparse(loops[0].stmt.target.elts[0]) if isinstance(loops[0].stmt.target, ast.Tuple) else None
+    table_key = unparse(loops[0].stmt.target.elts[0]) if isinstance(loops[0].stmt.target, ast.Tuple) else None
     fld = unparse(loops[0].stmt.target.elts[1]) if isinstance(loops[0].stmt.target, ast.Tuple) else None
+    # the name a property is published under: the field's declared name (`<field>.name`, directly or through a local).
+    # The table key is lower-cased for case-insensitive fields and is not what the parsed output carries.
+    named = {n.ast.targets[0].id for n in ga.cfg.nodes if n.kind == "stmt" and isinstance(n.ast, ast.Assign)
+             and isinstance(n.ast.targets[0], ast.Name) and unparse(n.ast.value) == f"{fld}.name"}
+    key = sorted(named)[0] if len(named) == 1 else f"{fld}.name"
     # the published containers are found by role: data.update(required=<R>, properties=<P>, dependentRequired=<D>)
     published = {}
     for n, c in ga.all_calls():
@@ -277,7 +282,17 @@ def r13c(run):
     pstores = [n for n in ga.cfg.nodes if n.kind == "stmt" and isinstance(n.ast, ast.Assign)
                and isinstance(n.ast.targets[0], ast.Subscript) and unparse(n.ast.targets[0].value) == P_]
     run.floor("R13c", "properties stores", len(pstores), 1)
-    pkeys = {unparse(n.ast.targets[0].slice) for n in pstores}
+    def canon(k: str) -> str:
+        return f"{fld}.name" if k in named else k
+    key = canon(key)
+    pkeys = {canon(unparse(n.ast.targets[0].slice)) for n in pstores}
+    run.check("R13c", g, "properties are listed under the field's declared name", pkeys <= {key, f"{fld}.name"},
+              construct="properties keyed by the parser's table key",
+              message=f"generate_for_dataclass lists properties under {sorted(pkeys)}"
+                      + (f" (the key of parser.fields, `{table_key}`)" if table_key in pkeys else "")
+                      + f", not under {fld}.name",
+              necessity="with case_insensitive options the table key is lower-cased: the schema names (and requires) "
+                        "'username' while the parsed output carries 'userName' - the output fails validation")
     for n in pstores:
         # the property value is the result of generate_for_field for that field, and None results are skipped
         val = n.ast.value
@@ -289,7 +304,7 @@ def r13c(run):
                   f"generate_for_field", necessity="properties lists fields the view excludes (or omits included ones)",
                   node=n.ast)
     for n, c in req_appends:
-        k = unparse(c.args[0]) if c.args else ""
+        k = canon(unparse(c.args[0])) if c.args else ""
         run.check("R13c", g, f"`required` uses the property key `{k}`", k in pkeys and k == key,
                   construct="required key differs from property key",
                   message=f"required.append({k}) does not use the key under which the property is listed ({sorted(pkeys)})",
@@ -320,7 +335,7 @@ def r13c(run):
                       necessity="mode / ignore_required of the class are ignored when computing `required`", node=c)
     dep = [n for n in ga.cfg.nodes if n.kind == "stmt" and isinstance(n.ast, ast.Assign)
            and isinstance(n.ast.targets[0], ast.Subscript) and D and unparse(n.ast.targets[0].value) == D]
-    ok = bool(dep) and all(unparse(n.ast.targets[0].slice) == key and "dependencies" in unparse(n.ast.value) for n in dep)
+    ok = bool(dep) and all(canon(unparse(n.ast.targets[0].slice)) == key and "dependencies" in unparse(n.ast.value) for n in dep)
     run.check("R13c", g, "dependentRequired maps the property key to the field's dependencies", ok,
               construct="dependentRequired", message="generate_for_dataclass no longer emits dependent_required[name] = "
               "field.dependencies")
@@ -338,6 +353,29 @@ def r13c(run):
     for n, c in req_appends:
         fs = _facts(ga, n)
         if ("self.output", True) in fs and any("no_default" in t and not p for t, p in fs):
+            # every reason for which get_default withholds a default at parse time must be consulted here: read them from
+            # get_default itself (the option attributes tested before its early `return unprovided`)
+            gd = run.repo.func("utype.parser.field", "ParserField.get_default")
+            gda = analysis(gd)
+            withheld = set()
+            for m in gda.cfg.nodes:
+                if m.kind == "stmt" and isinstance(m.ast, ast.Return) and unparse(m.ast.value) == "unprovided":
+                    for a, p in gda.facts.atoms_at(m):
+                        oa = opt_attr(a)
+                        if oa and p:
+                            withheld.add(oa)
+            consulted = {opt_attr(a) for a, p in ga.facts.atoms_at(n) if opt_attr(a)}
+            for x in ast.walk(ast.Module(body=[b.test for b in ga.facts.branch_facts(n)], type_ignores=[])):
+                if isinstance(x, ast.Attribute) and opt_attr(x):
+                    consulted.add(opt_attr(x))
+            missing = sorted(w for w in withheld if w not in consulted)
+            run.check("R13c", g, f"the output view consults every option for which the parser withholds defaults "
+                                 f"({sorted(withheld)})", not missing,
+                      construct=f"output schema ignores {'/'.join(missing)}",
+                      message=f"`{unparse(c)}` marks defaulted fields as required in the output view without consulting "
+                              f"options.{', options.'.join(missing)} - ParserField.get_default returns no default under it",
+                      necessity="Options(no_default=True): the parsed output lacks every defaulted field but the output "
+                                "schema lists them under `required`: the output fails validation", node=c)
             ok = any("defer_default" in t for t, p in fs)
             run.check("R13c", g, "a deferred default does not make a field required in the output view", ok,
                       construct="deferred defaults required in the output schema",
